@@ -22,7 +22,7 @@ EXPLANATION = ("Over every function of the parser crates/modules (about 2400 MIR
                "from non-zero constants and hash lengths, or a reviewed reason. It does not prove the absence of all panics: additions/multiplications that overflow "
                "and panics inside callees outside the scope are not decided.")
 RULES = os.path.join(os.path.dirname(os.path.dirname(os.path.abspath(__file__))), "rules")
-EXTRA_SOURCES = re.compile(r"^(gix_utils::btoi::(to_signed|to_unsigned)(_with_radix)?)$")
+EXTRA_SOURCES = re.compile(r"^(gix_utils::btoi::(to_signed|to_unsigned)(_with_radix)?|gix_index::util::var_int)$")
 # self-recursive functions whose recursion is bounded by consumption of input / a finite structure (reviewed)
 RECURSION_OK = {
     "gix_index::extension::tree::verify::<impl gix_index::extension::Tree>::verify::verify_recursive": "walks the already decoded (finite) tree of the extension",
@@ -260,6 +260,10 @@ def run(db, chk):
         chk.floor("BND slice-access / subtraction sites examined", n_sites, 350)
         chk.ob("slice-access-bounded", "%d sites discharged by the prover, %d on the reviewed list" % (n_proved, n_rev), True)
     zero_operand_rule(fns, chk)
+    allocation_size_rule(fns, chk)
+    # a reviewed slice `&line[consumed..]` (gix-attributes) relies on gix_quote::ansi_c::undo never reporting more than it was given
+    from props.C57 import consumed_rule
+    consumed_rule(db, chk)
 
 
 NONZERO_CALLS = r"Kind>::len_in_bytes$|Kind>::len_in_hex$"
@@ -317,3 +321,41 @@ LEN_MINUS_OK = {
     "gix_index::decode::<impl gix_index::State>::from_bytes::{closure#0}::{closure#4}": "only on the threaded path, which requires an EOIE extension whose decoder checked data.len() >= MIN_SIZE_WITH_HEADER + hash_len",
     "gix_pack::multi_index::access::<impl gix_pack::multi_index::File>::checksum": "try_from rejects files shorter than header + trailer",
 }
+
+
+ALLOC = re.compile(r"(::with_capacity$|::with_capacity_in$|::reserve$|::reserve_exact$|Vec::<T, A>::resize$|::from_elem$|::resize_with$)")
+DECODED = r"::var_int$|::read_u32$|::read_u64$|::read_u16$|::from_be_bytes$|::from_le_bytes$|leb64|btoi::to_(un)?signed|::from_str_radix$|decode::u32$"
+ALLOC_REVIEWED = {
+    ("gix_bitmap::ewah::decode", "with_capacity"): "`len` words were just split off the input (split_at_pos(data, len * 8) succeeded), so len <= data.len() / 8",
+    ("gix_index::decode::entries::load_one", "resize"): "copy_len = prev_path.end - strip_len - prev_path.start (checked_sub), a range inside the already decoded path backing",
+}
+
+
+def allocation_size_rule(fns, chk):
+    """a count read from the file must not size an allocation as it is: `Vec::with_capacity(n)` with n = 2^56 aborts the process (`memory
+    allocation of .. bytes failed`), which C06 forbids as much as a panic.  URC treats try_into()/try_from() as sanitisers (right for indexing,
+    wrong for sizes), so this rule follows the plain data flow: every with_capacity/reserve/resize in the parser scope whose size derives from a
+    decoding call is clamped by a `min`/`clamp` (or by max_possible_entries) on the way, or has a reviewed reason."""
+    n = 0
+    for f in fns:
+        fl = None
+        for c in f.calls():
+            if not ALLOC.search(c.name) or not c.args:
+                continue
+            a = c.args[0] if re.search(r"::with_capacity(_in)?$", c.name) else (c.args[1] if len(c.args) > 1 else None)
+            if a is None or "p" not in a:
+                continue
+            fl = fl or Flow(f)
+            r = fl.roots(a, stop_named=False)
+            src = sorted({x[1].split("::")[-1] for x in r if x[0] == "call" and re.search(DECODED, x[1])})
+            if not src:
+                continue
+            n += 1
+            clamp = any(x[0] == "call" and re.search(r"::min$|::clamp$|max_possible_entries$", x[1]) for x in r)
+            key = (f.name, c.name.split("::")[-1])
+            ok = clamp or key in ALLOC_REVIEWED
+            chk.ob("decoded-count-does-not-size-allocation", "%s %s@%d" % (f.name.split("::")[-1], c.name.split("::")[-1], c.line), ok,
+                   "the allocation size derives from %s without a clamp to what the remaining input can hold: a crafted count aborts the process" % src if not ok else (
+                       "clamped" if clamp else ALLOC_REVIEWED[key]),
+                   c.where(), key="alloc-size|%s|%s" % (f.name, c.name.split("::")[-1]))
+    chk.floor("allocations sized by decoded integers in the parser scope", n, 4)
